@@ -263,12 +263,6 @@ class Verifier(Interp):
             post_vars["result"] = res
             if c.ghost_exit is not None:
                 c.ghost_exit(self, post_vars, self.top_old)
-            for j, cl in enumerate(c.ensures):
-                lab, text = split_label(cl, f"post{j}")
-                v = eval_clause(self, text, post_vars, globs, old_vars=self.top_old, extra=self.spec_extra)
-                self.prove(f"{fn_label}/post/{lab}", v, "postcondition")
-            if "post" not in self.cover:
-                self.cover["post"] = True
             # must-fail canary: `False` must NOT be provable at a normal exit, i.e. the assumptions collected along the path
             # (preconditions, ghost definitions, library models, assumed invariants and callee postconditions) are consistent
             nx = self.cover.get(("exits", self.variant), 0)
@@ -277,6 +271,13 @@ class Verifier(Interp):
                 from .engine import Oblig
 
                 self.covers.append(Oblig(f"{self.prop}/{fn_label}/cover/assumptions-consistent-at-exit-{nx}", list(self.pc), z3.BoolVal(False), "cover", self.variant))
+            for j, cl in enumerate(c.ensures):
+                lab, text = split_label(cl, f"post{j}")
+                v = eval_clause(self, text, post_vars, globs, old_vars=self.top_old, extra=self.spec_extra)
+                self.prove(f"{fn_label}/post/{lab}", v, "postcondition")
+            if "post" not in self.cover:
+                self.cover["post"] = True
+
 
         variants = c.variants if c.variants else {"": c.setup}
         npaths = 0
